@@ -106,3 +106,16 @@ Proof.
   - exact (accepted_sound _ _ H4).
   - exact (status_raised_sound _ _ H5).
 Qed.
+
+
+Lemma spec_d_b_sound y v : spec_d_b y v = true -> spec_d y v.
+Proof.
+  unfold spec_d_b, spec_d. intros H.
+  apply andb_prop in H as [H H4]. apply andb_prop in H as [H H3]. apply andb_prop in H as [H1 H2].
+  split; [|split; [|split]].
+  - intros Hb. rewrite Hb in H1. cbn [negb orb] in H1. exact (correlated_sound _ _ H1).
+  - exact (status_sound _ _ H2).
+  - exact (shape_sound _ _ H3).
+  - intros Hb Hw. rewrite Hb, Hw in H4. cbn [negb andb orb] in H4. apply andb_prop in H4 as [Ha Hs].
+    split; [exact (accepted_sound _ _ Ha)|exact (status_raised_sound _ _ Hs)].
+Qed.
